@@ -212,6 +212,12 @@ def _make_path_function(jobs, path):
         # Generate a path function based on the schema detected for jobs.
         path_function = _make_schema_based_path_function(jobs=jobs)
 
+        # The generated paths spell values with str(), which is not guaranteed
+        # to be a 1-1 mapping (e.g. for the values 1 and "1").
+        _check_path_function_unique(
+            jobs, path_spec="{{auto}}", path_function=path_function
+        )
+
     elif path is False:
         # Just use the job id as path.
         def path_function(job):
